@@ -657,7 +657,7 @@ def size_pool(fam):
 def part_app_runs(ctx, chk, rec):
     from qecsim import app
     rng = ctx.rng
-    n_small, n_big = ctx.scale((1200, 30), (6000, 300))
+    n_small, n_big = ctx.scale((1200, 30), (5000, 250))
     plan = ['small'] * n_small + ['big'] * n_big
     explored = 0
     timeouts = 0
@@ -803,27 +803,27 @@ EXH_CONFIGS = [
 
 
 def exhaustive_plan(ctx):
-    """(family, size, T, config indices) — every listed domain is enumerated completely"""
+    """(family, size, T, config indices, slices) — every listed domain is enumerated completely; `slices = k` means
+    that this run enumerates the arrays whose first row index is congruent to VERIF_SEED modulo k (the k seeds
+    0..k-1 together cover the whole domain; the evidence names the slice)"""
     allc = list(range(len(EXH_CONFIGS)))
-    plan = [('toric', (2, 2), 1, allc), ('toric', (2, 2), 2, allc), ('toric', (2, 2), 3, allc),
-            ('planar', (3, 3), 1, allc), ('toric', (2, 4), 1, allc), ('toric', (4, 2), 1, allc),
-            ('planar', (3, 3), 2, [8, 9, 10])]
+    plan = [('toric', (2, 2), 1, allc, 1), ('toric', (2, 2), 2, allc, 1), ('toric', (2, 2), 3, allc, 1),
+            ('planar', (3, 3), 1, allc, 1), ('toric', (2, 4), 1, allc, 1), ('toric', (4, 2), 1, allc, 1),
+            ('planar', (3, 3), 2, [8, 9, 10], 1)]
     if not ctx.quick():
-        plan += [('toric', (2, 4), 2, allc), ('planar', (3, 3), 2, [0, 2]), ('planar', (3, 4), 1, allc),
-                 ('planar', (4, 3), 1, allc), ('toric', (4, 4), 1, [0, 4, 6])]
+        plan += [('toric', (2, 4), 2, allc, 1), ('planar', (3, 4), 1, allc, 1), ('planar', (4, 3), 1, allc, 1),
+                 ('toric', (4, 4), 1, [0, 4, 6], 1), ('planar', (3, 3), 2, [0, 4], 8)]
     return plan
 
 
 def part_exhaustive(ctx, chk, rec):
     domains = []
     total = 0
-    for fam, size, T, cfgs in exhaustive_plan(ctx):
+    for fam, size, T, cfgs, slices in exhaustive_plan(ctx):
         code = make_code(fam, size); S = code.stabilizers; m = S.shape[0]; n = S.shape[1] // 2
         imgs = {}
         for ci in cfgs:
             tag, eta, ems, p, q, qclass, support = EXH_CONFIGS[ci]
-            if T == 1 and qclass == 'mid' and ci not in (0, 4):
-                pass  # still a distinct decoder context (q, p differ): keep
             if support not in imgs:
                 imgs[support] = image_with_preimage(S, support)
             img = imgs[support]
@@ -832,6 +832,8 @@ def part_exhaustive(ctx, chk, rec):
             for itp in ((False, True) if fam == 'toric' and T > 1 and ci in (0, 4) else (False,)):
                 dec = make_decoder(fam, eta, itp)
                 for rint in enum_reachable(img, m, T, qclass):
+                    if slices > 1 and rint[0] % slices != ctx.seed % slices:
+                        continue
                     rows = np.array([to_vec(x, m) for x in rint], dtype=int)
                     # step errors / flips that produce this array (the witness of reachable_iff): whole error in step 0
                     if qclass == 'mid':
@@ -862,7 +864,9 @@ def part_exhaustive(ctx, chk, rec):
                     cnt += 1
             total += cnt
             domains.append({'family': fam, 'size': '{}x{}'.format(*size), 'T': T, 'context': tag, 'q_class': qclass,
-                            'support': support, 'arrays': cnt, 's': round(time.time() - t0, 1)})
+                            'support': support, 'arrays': cnt, 's': round(time.time() - t0, 1),
+                            'slice': 'all' if slices == 1 else '{} of {} (first row index mod {})'.format(
+                                ctx.seed % slices, slices, slices)})
             ctx.count('exhaustive.domain', '{} {}x{} T={}'.format(fam, size[0], size[1], T))
     return total, domains
 
